@@ -107,7 +107,7 @@ func main() {
 				if err != nil {
 					errs[w] = fmt.Sprintf("worker %d: %v", w, err)
 				}
-			case <-time.After(time.Duration(*budget)*time.Second + 20*time.Minute):
+			case <-time.After(time.Duration(*budget)*time.Second + 4*time.Minute):
 				_ = cmd.Process.Kill()
 				errs[w] = fmt.Sprintf("worker %d: watchdog timeout", w)
 			}
